@@ -277,6 +277,8 @@ def oracle_config(ctx: Ctx, o, src):
             cls = "explicit-delimiter:backslash-before-delimiter"
         elif cr:
             cls = "explicit-delimiter:carriage-return"
+        elif explicit and any(k == {"s": n} for k, _ in tree["__d"]):
+            cls = "explicit-delimiter:name-is-top-level-key"
         else:
             feats = []
             if needs_esc:
@@ -400,9 +402,9 @@ def run(ctx: Ctx):
 
     # ---- generated cases (worker subprocesses, seeded)
     base = ctx.seed * 1000
-    nsh = 6 if ctx.quick else 24
-    n_serial = 25 if ctx.quick else 60
-    n_cfg = 220 if ctx.quick else 900
+    nsh = 6 if ctx.quick else 16
+    n_serial = 25 if ctx.quick else 50
+    n_cfg = 220 if ctx.quick else 700
     kinds = ["ts", "grp", "rec", "coord", "dt", "ref"]
     pay = [("serial_cases", {"seed": base + i, "n": n_serial, "kinds": kinds}) for i in range(nsh)]
     payc = [("config_cases", {"seed": base + 500 + i, "n": n_cfg}) for i in range(nsh)]
